@@ -73,7 +73,12 @@ func (m *Orthographic) Reverse(xy geom.XY) geom.XY {
 		ρ = xy.Length()
 		c = asin(ρ / R)
 		φ = asin(cos(c)*sinφ0 + y*sin(c)*cosφ0/ρ)
-		λ = λ0 + atan(x*sin(c)/(ρ*cos(c)*cosφ0-y*sin(c)*sinφ0))
+		λ = λ0 + atan2(x*sin(c), ρ*cos(c)*cosφ0-y*sin(c)*sinφ0)
 	)
+	if ρ == 0 {
+		// The formulas above are 0/0 at the center of the projection.
+		φ = asin(sinφ0)
+		λ = λ0
+	}
 	return rtodxy(λ, φ)
 }
